@@ -1032,3 +1032,168 @@ def direct_field_copy(body, op, depth=6):
             return None
         op = d[3]["rv"]["op"]
     return None
+
+
+# ------------------------------------------------------------------ loops
+def loop_blocks(body, bb, unwind=False):
+    """Blocks of the cycle(s) through bb (normal edges): everything reachable from bb that reaches bb."""
+    fwd = body.reachable(body.term_succ(bb, unwind), unwind=unwind)
+    return {x for x in fwd if bb in body.reachable(body.term_succ(x, unwind), unwind=unwind)} | {bb}
+
+
+def loop_exit_edges(body, bb):
+    """Normal (non-cleanup) edges leaving the loop that contains bb."""
+    lp = loop_blocks(body, bb)
+    out = []
+    for u in sorted(lp):
+        if body.blocks[u].cleanup:
+            continue
+        for v in body.term_succ(u, False):
+            if v not in lp and not body.blocks[v].cleanup and body.blocks[v].term["k"] != "unreachable":
+                out.append((u, v))
+    return out
+
+
+ITER_SOURCE_OK = {"iter", "iter_mut", "into_iter", "next", "deref", "deref_mut", "values", "values_mut", "keys", "as_slice",
+                  "as_mut_slice", "as_ref", "as_mut", "borrow", "enumerate", "zip", "copied", "cloned", "by_ref", "into_vec"}
+ITER_TRUNCATING = {"map_while", "take_while", "take", "skip", "skip_while", "step_by", "find", "find_map", "position", "any", "all",
+                   "filter", "filter_map", "nth", "last", "peekable", "fuse", "scan", "rev", "chain", "flat_map", "flatten"}
+
+
+def iter_chain(body, op, depth=12):
+    """Method names of the iterator-adaptor chain that produced the iterator operand `op` (innermost last): walks from
+    the operand through single-definition temporaries; continues through a call only while the callee is an iterator
+    adaptor/source taking the previous stage as its first argument."""
+    out = []
+    while depth:
+        depth -= 1
+        pl = op_place(op)
+        if pl is None:
+            break
+        d = body.unique_def(pl["l"])
+        if not d:
+            break
+        _bb, _i, kind, payload = d
+        if kind == "assign":
+            rv = payload["rv"]
+            if rv["k"] in ("ref", "rawptr"):
+                if rv["place"]["l"] == pl["l"]:
+                    break
+                op = {"k": "copy", "place": {"l": rv["place"]["l"], "p": []}}
+                continue
+            if rv["k"] in ("use", "cast"):
+                op = rv["op"]
+                continue
+            break
+        m = payload["callee"].get("method")
+        k = callee_key(payload["callee"])
+        if not payload["args"]:
+            break
+        if m in ITER_SOURCE_OK or m in ITER_TRUNCATING or "iter::" in k or "Iterator" in k or m in ("drain", "map", "inspect"):
+            out.append(m)
+            if m in ("iter", "iter_mut", "drain", "values", "values_mut", "keys"):
+                break   # reached the collection
+            op = payload["args"][0]
+            continue
+        break
+    return out
+
+
+def loop_visits_all(body, bb):
+    """Does the loop containing the call at `bb` visit every element of its source? Conditions: every exit edge of the loop
+    is the None arm of a switch on the discriminant of an `Iterator::next()` result of that loop, and the iterator's source
+    chain contains no truncating/selecting adaptor. Returns (ok, detail)."""
+    lp = loop_blocks(body, bb)
+    nexts = [(b, t) for b, t in body.calls() if b in lp and t["callee"].get("method") == "next"]
+    if not nexts:
+        return False, "no Iterator::next in the loop"
+    dests = {t["dest"]["l"] for _b, t in nexts}
+    bad = []
+    for u, v in loop_exit_edges(body, bb):
+        t = body.blocks[u].term
+        ok = False
+        if t["k"] == "switch":
+            src = discr_source(body, op_local(t["discr"]))
+            pl = guard_src_place(src)
+            labels = [lab for lab, tgt in t["arms"] if tgt == v] + (["otherwise"] if t["otherwise"] == v else [])
+            ok = src.get("kind") == "discr" and pl is not None and pl["l"] in dests and 1 not in labels
+        if not ok:
+            bad.append(f"exit bb{u}->bb{v} is not the exhaustion of the iterator")
+    adaptors = set()
+    for _b, t in nexts:
+        for m in iter_chain(body, t["args"][0]):
+            if m in ITER_TRUNCATING:
+                adaptors.add(m)
+    if adaptors:
+        bad.append(f"source chain uses selecting/truncating adaptors {sorted(adaptors)}")
+    return not bad, "; ".join(bad) or "loop runs to exhaustion of an untruncated iterator"
+
+
+# ------------------------------------------------------------------ error discipline
+def err_outcomes_diverge(body, call_bb):
+    """For a call returning Result<_, E> at `call_bb`: does every Err outcome diverge (panic) or propagate as an Err
+    return, i.e. is there NO normal path on which an Err value is dropped and the function carries on?
+    Accepted consumers: expect / unwrap / expect_err-free unwrap_or_else(panic) on the moved result; `?` (a switch whose
+    Err arm returns after constructing the return value from the error); a match whose Err arms all diverge.
+    Returns (ok, detail)."""
+    t = body.blocks[call_bb].term
+    dest = t["dest"]["l"]
+    # follow plain moves of the result
+    cur = {dest}
+    changed = True
+    while changed:
+        changed = False
+        for blk in body.blocks:
+            for st in blk.stmts:
+                if st["k"] == "assign" and st["rv"]["k"] == "use" and op_local(st["rv"]["op"]) in cur and not st["place"]["p"] \
+                        and st["place"]["l"] not in cur:
+                    cur.add(st["place"]["l"])
+                    changed = True
+    consumers = []
+    for bb, ct in body.calls():
+        if ct["args"] and op_local(ct["args"][0]) in cur:
+            consumers.append((bb, ct["callee"].get("method")))
+    if consumers and all(m in ("expect", "unwrap") for _bb, m in consumers):
+        return True, f"result consumed by {sorted({m for _bb, m in consumers})}"
+    if consumers and any(m == "branch" for _bb, m in consumers):
+        return True, "result propagated with `?`"
+    # explicit match: every Err arm must not reach a normal return
+    sw = []
+    for blk in body.blocks:
+        tt = blk.term
+        if tt["k"] == "switch":
+            src = discr_source(body, op_local(tt["discr"]))
+            pl = guard_src_place(src)
+            if src.get("kind") == "discr" and pl is not None and pl["l"] in cur:
+                sw.append(blk.idx)
+    if not sw:
+        return False, f"result neither unwrapped, propagated nor matched (consumers: {consumers})"
+    rets = set(body.exits(("return",)))
+    for s in sw:
+        tt = body.blocks[s].term
+        err_targets = [tg for lab, tg in tt["arms"] if lab == 1]
+        if tt["otherwise"] not in [tg for lab, tg in tt["arms"]] and not any(lab == 1 for lab, _ in tt["arms"]):
+            err_targets.append(tt["otherwise"])
+        r = body.reachable(err_targets, unwind=False)
+        if r & rets:
+            return False, "an Err arm of the match reaches a normal return (the error is tolerated)"
+    return True, "every Err arm of the match diverges"
+
+
+def skips_only_via(body, effect_bbs, edge_pred, start=0):
+    """Every normal path from `start` to a return passes one of `effect_bbs`, except paths that take an edge (u, v, switch_src,
+    label) accepted by `edge_pred`. Returns (ok, sanctioned_edges)."""
+    edges = []
+    for blk in body.blocks:
+        t = blk.term
+        if t["k"] != "switch" or blk.cleanup:
+            continue
+        src = discr_source(body, op_local(t["discr"]))
+        for lab, tgt in t["arms"]:
+            if edge_pred(blk.idx, tgt, src, lab):
+                edges.append((blk.idx, tgt))
+        if edge_pred(blk.idx, t["otherwise"], src, "otherwise"):
+            edges.append((blk.idx, t["otherwise"]))
+    rets = body.exits(("return",))
+    r = body.reachable([start], unwind=False, avoid=list(effect_bbs), avoid_edges=edges)
+    return not [x for x in rets if x in r], edges
